@@ -9,6 +9,8 @@ package main
 // module must be unchanged by the resolution.
 
 import (
+	"github.com/gogpu/naga/glsl"
+	"github.com/gogpu/naga/msl"
 	"fmt"
 	"math"
 	"os"
@@ -94,6 +96,9 @@ func ovExpr2(c *ctx, t *wty, prev []ovDecl, depth int, allOps, big bool) *wexpr 
 
 // ovLiteral: the supplied value converted to the override's type, as a literal of the reference
 // program; ok=false when the value is not representable (WebGPU: pipeline-creation error).
+// Integers follow WebIDL's [EnforceRange] conversion (as upstream naga's map_value_to_literal does): a
+// non-finite value is an error, a finite one is truncated toward zero and must then lie in the type's range —
+// 1.5 is 1 and -2.5 is -2, not errors.
 func ovLiteral(t *wty, v float64) (*wexpr, bool) {
 	switch t.k {
 	case "bool":
@@ -102,12 +107,20 @@ func ovLiteral(t *wty, v float64) (*wexpr, bool) {
 		}
 		return lit32(t, 1), true
 	case "i32":
-		if v != math.Trunc(v) || v < -2147483648 || v > 2147483647 {
+		if math.IsNaN(v) || math.IsInf(v, 0) {
+			return nil, false
+		}
+		v = math.Trunc(v)
+		if v < -2147483648 || v > 2147483647 {
 			return nil, false
 		}
 		return lit32(t, uint32(int32(v))), true
 	case "u32":
-		if v != math.Trunc(v) || v < 0 || v > 4294967295 {
+		if math.IsNaN(v) || math.IsInf(v, 0) {
+			return nil, false
+		}
+		v = math.Trunc(v)
+		if v < 0 || v > 4294967295 {
 			return nil, false
 		}
 		return lit32(t, uint32(v)), true
@@ -196,7 +209,7 @@ func cmdC14(c *ctx) {
 					o.val = float64(int32(c.operand32()))
 				}
 				if knob == "badval" && c.chance(0.6) {
-					o.val = []float64{3e9, -3e9, 1.5, 4294967296, math.Inf(1)}[c.rng.Intn(5)]
+					o.val = []float64{3e9, -3e9, 1.5, -2.5, 4294967296, math.Inf(1), -0.75}[c.rng.Intn(7)]
 				}
 			case "u32":
 				o.val = float64(c.rng.Intn(2001))
@@ -204,7 +217,7 @@ func cmdC14(c *ctx) {
 					o.val = float64(c.operand32())
 				}
 				if knob == "badval" && c.chance(0.6) {
-					o.val = []float64{-1, 5e9, 2.5, 4294967296}[c.rng.Intn(4)]
+					o.val = []float64{-1, 5e9, 2.5, 4294967296, -0.5, 4294967295.5}[c.rng.Intn(6)]
 				}
 			default:
 				o.val = float64(c.rng.Intn(17) - 8)
@@ -375,6 +388,47 @@ func cmdC14(c *ctx) {
 		}
 		inp, outp := make([]uint32, 16), make([]uint32, 16)
 		emit(fmt.Sprintf("(c14 (expecterr %s) (ast %s) (ir %s) (inputs %s %s))", q(expectErr), ref.sexp(), dumpModule(clone), wordsSexp(0, inp), wordsSexp(1, outp)), status)
+		// the back ends' own pipeline-constant options (msl: its own substitution; glsl: ProcessOverrides on an internal
+		// clone): the emitted text, executed, must compute what the substituted reference program computes
+		if expectErr == "" && (knob == "clean" || knob == "badval") {
+			for _, route := range []string{"msl", "glsl"} {
+				m2, _ := frontEnd(src)
+				if m2 == nil {
+					continue
+				}
+				var text string
+				var rr stageResult
+				if route == "msl" {
+					o := msl.DefaultOptions()
+					o.PipelineConstants = map[string]float64(consts)
+					rr = guard("msl", func() error { t, _, err := msl.Compile(m2, o); text = t; return err })
+				} else {
+					rr = guard("glsl", func() error {
+						t, _, err := glsl.Compile(m2, glsl.Options{LangVersion: glsl.Version430, EntryPoint: "main", PipelineConstants: consts})
+						text = t
+						return err
+					})
+				}
+				tag := fmt.Sprintf("route:%s %s hslot=%d %s", route, knob, hslot, strings.Join(mapS, ","))
+				routeLine := func(kase string) {
+					c.line("route-cases.txt", kase)
+					c.line("route-tags.txt", tag)
+					c.line("route-src.txt", q(src))
+					c.line("route-text.txt", q(text))
+					c.count("route:" + route)
+				}
+				if rr.err != "" {
+					routeLine("(routeerr " + q(oneLine(rr.err)) + ")")
+					continue
+				}
+				unit, perr := cparse(text)
+				if perr != nil {
+					routeLine("(routeerr " + q("emitted text does not parse: "+perr.Error()) + ")")
+					continue
+				}
+				routeLine(cCase(route, ref, unit, inp, outp))
+			}
+		}
 	}
 }
 
